@@ -1,7 +1,12 @@
 /-
-C10 — witnesses: the metadata reader of the **current** /repo code (`seek false`, `read false` of
-`Sqfs/Model/MetaReader.lean`) violates the property (D2), and its `read` computes `data_used - offset`
-below zero after a failed seek (D3).  The same histories on the repaired model behave (last two theorems).
+C10 — witnesses.
+
+* D2, D3, D21 (**repaired in /repo**: 8bf8edc, 442364d, 36fa767; kept as the record of what the models with
+  `fix = false` / `kw = false` are): the metadata reader before the repair (`seek false`, `read false` of
+  `Sqfs/Model/MetaReader.lean`) violates the property (D2), and its `read` computes `data_used - offset` below zero
+  after a failed seek (D3); the data-block cache keyed by location only (D21).
+* D33 (**the code as it is in /repo**, `sfix = false`): after `dr_stream_get_buffered_data` failed to load the
+  fragment block, the next call on the same stream reports success and hands out bytes the stream never filled.
 
 The image: two uncompressed metadata blocks back to back,
   A at 0:  header 0x8004, payload 61 62 63 64  ("abcd")
@@ -83,6 +88,48 @@ theorem d21_answer_depends_on_history :
 theorem d21_history_repaired :
     (DataReader.read true dimg toyUnc (DataReader.run true dimg toyUnc (DataReader.fresh 8 []) [.read inoA 0 8]) inoB 0 8).1
       = (0, [1, 2, 3, 4, 0, 0, 0, 0]) := by
+  decide +kernel
+
+
+/-! ### D33: a stream answers with stale bytes after a failed fragment lookup (code as it is in /repo)
+
+Image: eight data bytes `01 … 08` at location 0, block size 8, empty fragment table.  The file has 11 bytes: one
+raw block and a 3-byte tail that names fragment 5.  `get` delivers the block; after `advance(8)` the next `get`
+fails with `SQFS_ERROR_OUT_OF_BOUNDS` (no fragment 5) — and the `get` after that returns 0 with the first three
+bytes of the *block* as if they were the tail.  A stream created now and brought to the same position (one `get`,
+`advance(8)`) reports the error.  Replay on the real code: `corpus/C10/d33-stream-frag-fail.txt`. -/
+
+def simg : File := { size := 16, byte := fun i => if i < 8 then UInt8.ofNat (i + 1) else 0, bad := fun _ => false }
+def sino : DataReader.Inode := { fileSize := 11, blocksStart := 0, fragIdx := 5, fragOff := 0, blocks := [16777224] }
+
+/-- the three calls on one stream: answers of call 1, 2, 3 -/
+def d33Calls (sfix : Bool) : DataReader.StreamR × DataReader.StreamR × DataReader.StreamR :=
+  let d := DataReader.fresh 8 []
+  let r1 := DataReader.streamGet sfix simg toyUnc d (DataReader.streamOpen 8 sino)
+  let r2 := DataReader.streamGet sfix simg toyUnc r1.2.2 (DataReader.streamAdvance r1.2.1 8)
+  let r3 := DataReader.streamGet sfix simg toyUnc r2.2.2 r2.2.1
+  (r1.1, r2.1, r3.1)
+
+theorem d33_stream_answers_after_failure :
+    d33Calls false = (.data [some 1, some 2, some 3, some 4, some 5, some 6, some 7, some 8],
+                      .err Sqfs.Consts.errOutOfBounds,
+                      .data [some 1, some 2, some 3]) := by
+  decide +kernel
+
+/-- a file without blocks: the bytes handed out after the failure were never written by anybody (`none`: memory
+fresh from `malloc`) -/
+theorem d33_uninitialised_bytes :
+    let d := DataReader.fresh 8 []
+    let ino : DataReader.Inode := { fileSize := 3, blocksStart := 0, fragIdx := 5, fragOff := 0, blocks := [] }
+    let r1 := DataReader.streamGet false simg toyUnc d (DataReader.streamOpen 8 ino)
+    let r2 := DataReader.streamGet false simg toyUnc r1.2.2 r1.2.1
+    r1.1 = .err Sqfs.Consts.errOutOfBounds ∧ r2.1 = .data [none, none, none] := by
+  decide +kernel
+
+/-- with `fixes/C10-stream-frag-fail.patch` the stream is at its end after the failure -/
+theorem d33_history_repaired :
+    d33Calls true = (.data [some 1, some 2, some 3, some 4, some 5, some 6, some 7, some 8],
+                     .err Sqfs.Consts.errOutOfBounds, .eof) := by
   decide +kernel
 
 end Sqfs.C10.Witness
